@@ -32,6 +32,7 @@ func execute(lines []string, drv *hx.Driver, seed uint64) (res outcome) {
 	var ref *refNode
 	opts := map[string]string{}
 	expectedBlobs := map[string]string{}
+	var naiveStore []casLine // the store as told to the model of the eager directory (naive_model.go)
 	freshRef := func() *refNode { return &refNode{kind: "dir", children: map[string]*refNode{}} }
 
 	ask := func(line, actual string) bool {
@@ -192,6 +193,7 @@ func execute(lines []string, drv *hx.Driver, seed uint64) (res outcome) {
 			}
 			r.cas.blobs[casKeyOf(hash, size)] = b
 			expectedBlobs[casKeyOf(hash, size)] = string(b)
+			naiveStore = append(naiveStore, casLine{casKeyOf(hash, size), line})
 			if !tell(line) {
 				return
 			}
@@ -211,11 +213,12 @@ func execute(lines []string, drv *hx.Driver, seed uint64) (res outcome) {
 			}
 			r.cas.blobs[casKeyOf(hash, size)] = []byte(data)
 			expectedBlobs[casKeyOf(hash, size)] = data
+			naiveStore = append(naiveStore, casLine{casKeyOf(hash, size), line})
 			if !tell(line) {
 				return
 			}
-		case "nmerge": // nmerge <dig> : eager merge on a real directory (monitor only)
-			if len(w) != 2 {
+		case "nmerge": // nmerge <dig> <fault>*: eager merge on a real directory; with drv also against Model/NaiveDir.lean under the faults
+			if len(w) < 2 {
 				continue
 			}
 			h, sz, ok := untokDig(w[1])
@@ -238,6 +241,26 @@ func execute(lines []string, drv *hx.Driver, seed uint64) (res outcome) {
 			if r.cas.puts > 0 || !sameBlobs(r.cas.blobs, expectedBlobs) {
 				res.monitor = abbreviate(line) + " changed the Content Addressable Storage"
 				return
+			}
+			if drv != nil {
+				res.steps++
+				nv := r.naiveModelCompare(naiveStore, h, sz, w[2:], res.flags)
+				if nv.invalid {
+					res.invalid = true
+					return
+				}
+				if nv.monitor != "" {
+					res.monitor = abbreviate(line) + ": " + nv.monitor
+					return
+				}
+				if nv.mismatch != "" {
+					res.mismatch, res.expected, res.actual = nv.mismatch, nv.expected, nv.actual
+					return
+				}
+				if r.cas.puts > 0 || !sameBlobs(r.cas.blobs, expectedBlobs) {
+					res.monitor = abbreviate(line) + " (with faults) changed the Content Addressable Storage"
+					return
+				}
 			}
 		case "casmiss": // casmiss <dig> <0|1>: the storage loses / regains a blob
 			if len(w) != 3 {
